@@ -48,7 +48,7 @@ func (s Stack) Apply(opt *Option, profile string) (string, error) {
 	if t != "X" {
 		regCleanStakedRules = slices.Insert(regCleanStakedRules, 0,
 			util.ToRegexRepl([]string{
-				`(?m)^.*(|P|p)(|U|u)(|i)x,.*$`, ``, // Remove X transition rules
+				`(?m)^.*\s[rwmlk]*(|P|p|C|c)(|U|u)(|i)x(\s*->\s*[^,]+)?,.*$`, ``, // Remove X transition rules
 			})...,
 		)
 	} else {
